@@ -407,9 +407,11 @@ pub fn exec(op: &str, a: &[u64]) -> Result<Outcome, String> {
             let mut o = Outcome::new(format!("ok {}", got.len()));
             o.check(got.iter().enumerate().all(|(i, v)| *v == f(i as u64)), "received sequence is not f(x0), f(x1), ... in order");
             if w > 0 {
-                // each worker holds at most one item, the channel at most `threads` results
-                o.check(ahead <= got.len() + 2 * w + 1, "workers pulled more than consumed + 2 * threads + 1 items while the consumer was idle (lookahead depends on the input length)");
-                o.check(after <= got.len() + 3 * w + 1, "workers kept pulling after the consumer dropped the iterator");
+                // the current code: each worker holds at most one item, the channel at most `threads` results, i.e.
+                // consumed + 2 * threads (theorem pipe_lookahead).  The property only asks for SOME constant that
+                // depends on the thread count and not on the input length: the oracle allows a generous one.
+                o.check(ahead <= got.len() + 4 * w + 8, "workers pulled more than consumed + 4 * threads + 8 items while the consumer was idle (lookahead depends on the input length)");
+                o.check(after <= got.len() + 8 * w + 8, "workers kept pulling after the consumer dropped the iterator");
             } else {
                 o.check(ahead <= got.len() && after <= got.len(), "unthreaded pipe pulled ahead of the consumer");
             }
@@ -459,9 +461,11 @@ pub fn exec(op: &str, a: &[u64]) -> Result<Outcome, String> {
             Sched::uninstall();
             let mut o = Outcome::new(format!("ok {}", got.len()));
             o.check(got.iter().enumerate().all(|(i, v)| *v == i as u64), "buffered iterator is not the upstream sequence");
-            o.check(ahead <= got.len() + b + 1, "buffer thread pulled more than buffer_size + 1 items ahead");
+            // the current code pulls at most buffer_size + 1 ahead; the property only asks for a constant depending on
+            // the buffer size
+            o.check(ahead <= got.len() + 4 * b + 8, "buffer thread pulled more than 4 * buffer_size + 8 items ahead");
             o.check(p1 == p2v, "buffer thread keeps pulling after the consumer dropped the iterator");
-            o.check(p2v <= ahead + 1, "buffer thread pulled more than one further item after the drop");
+            o.check(p2v <= ahead + b + 2, "buffer thread kept pulling after the drop");
             o.check(exited, "buffer thread did not exit after the consumer dropped the iterator");
             Ok(o)
         }
